@@ -349,3 +349,8 @@ func specChunkWireSize(c *chunkPayloadData) int {
 //@ nonnil{C03} Association : payloadQueue inflightQueue pendingQueue controlQueue rtoMgr streams reconfigs reconfigRequests stats t1Init t1Cookie t2Shutdown t3RTX tReconfig ackTimer ; constructors createAssociationFromConfigWithTsn
 
 //@ nonnil{C03} payloadQueue : chunks ; constructors newPayloadQueue
+
+// ---- C08: streams queued for acceptance are handed out before the end of the association is reported ----
+
+//@ func Association.AcceptStream
+//@   at return assert#accept-queue-consulted-before-returning{C08} recvs(a.acceptCh) != old(recvs(a.acceptCh))
